@@ -16,8 +16,8 @@ import (
 // implements the documented forms $NAME, ${NAME}, ${NAME:-default} with maximal-munch
 // names. Texts that consist only of literals and documented forms are compared exactly;
 // texts containing constructs the documentation is silent about (lone '$', "${}",
-// unterminated "${", non-identifier names in braces, a default containing '$' or a
-// second ":-") are only required not to crash — a variant that treats those differently
+// unterminated "${", non-identifier names in braces, a default containing a '$' that could start a
+// nested reference, or a second ":-") are only required not to crash — a variant that treats those differently
 // does not break the property, so they must not raise an alarm.
 
 var vpC37Pool = []string{"VPX_A", "VPX_B", "VPX_C", "VPX_AB", "VPX_A1", "vpx_a", "_VPX"}
@@ -65,7 +65,9 @@ func vpC37Ref(s string, env map[string]string) (out string, odd bool, refs, defa
 			if k := strings.Index(inner, ":-"); k >= 0 {
 				name, def, hasDef = inner[:k], inner[k+2:], true
 			}
-			if !vpIsIdent(name) || strings.ContainsAny(def, "$") || strings.Contains(def, ":-") || strings.Contains(inner, "{") {
+			// a default is literal text; only a '$' that could start a nested reference
+			// (followed by a name character or '{') or a second ":-" leaves the documented forms
+			if !vpIsIdent(name) || vpC37NestedRef(def) || strings.Contains(def, ":-") || strings.Contains(name, "{") {
 				odd = true
 			}
 			if v, ok := env[name]; ok {
@@ -103,6 +105,15 @@ func vpC37Ref(s string, env map[string]string) (out string, odd bool, refs, defa
 		i++
 	}
 	return b.String(), odd, refs, defaults, kept
+}
+
+func vpC37NestedRef(def string) bool {
+	for i := 0; i+1 < len(def); i++ {
+		if def[i] == '$' && (def[i+1] == '{' || vpIsNameStart(def[i+1])) {
+			return true
+		}
+	}
+	return false
 }
 
 func vpC37GenValue(t *rapid.T, label string) string {
@@ -149,6 +160,8 @@ func vpC37GenText(t *rapid.T) string {
 			b.WriteString("${" + name + "}")
 		case 7, 8:
 			d := rapid.StringMatching(`[a-zA-Z0-9_ .:/{\n-]{0,10}`).Draw(t, l+"def")
+			// literal '$' and '{' at the edges of a default (an anchored pattern, an amount)
+			d = rapid.SampledFrom([]string{"", "", "", "^", "{", "$ ", "$$"}).Draw(t, l+"defHead") + d + rapid.SampledFrom([]string{"", "", "", "$", "$$", "{", "+$", " $"}).Draw(t, l+"defTail")
 			b.WriteString("${" + name + ":-" + d + "}")
 		case 9: // undocumented constructs
 			b.WriteString(rapid.SampledFrom([]string{"$", "$$", "${}", "${", "${" + name, "$1", "$ ", "${a b}", "${" + name + ":-$VPX_A}", "${" + name + ":-a:-b}", "${$" + name + "}", "${:-x}", "$-"}).Draw(t, l+"odd"))
